@@ -48,7 +48,10 @@ def make_recipe(rng, tier):
     X, _ = gen_data(rng, n, p, kind)
     if spec["kw"]["anomaly_score"] and spec["kw"]["anomaly_score"]["cls"] == "GaussianVarCost":
         X = X + 1e-3 * rng.standard_normal(X.shape)
-    return {"det": spec, "X": X, "data_kind": kind}
+    int_dtype = bool(rng.random() < 0.15)
+    if int_dtype:
+        X = np.round(2 * X)
+    return {"det": spec, "X": X, "data_kind": kind, "int_dtype": int_dtype}
 
 
 def fresh_score(spec_sc, X):
@@ -61,11 +64,15 @@ def fresh_score(spec_sc, X):
 
 def exec_case(ctx, r):
     X = np.asarray(r["X"], dtype=float)
+    if r.get("int_dtype"):
+        X = X.astype(np.int64)  # the same numbers passed with an integer dtype
     n, p = X.shape
     spec = r["det"]
     kw = spec["kw"]
     msl = kw["min_segment_length"]
     ctx.case()
+    if r.get("int_dtype"):
+        ctx.stat("cases[int64 data]")
     if msl == 1:
         ctx.stat("cases[msl=1]")
     label = f"{short(spec)} X[{n}x{p}] data={r['data_kind']}"
@@ -99,7 +106,7 @@ def exec_case(ctx, r):
     if len(st) and (st.min() < 0 or en.max() > n):
         ctx.violation(sub, "interval-bounds", f"{label}: candidate interval outside [0,{n}]", r)
         return
-    score = fresh_score(kw["anomaly_score"], X)
+    score = fresh_score(kw["anomaly_score"], X.astype(float))
     for i in range(len(st)):
         cand = [(a, b) for a in range(st[i] + 1, en[i]) for b in range(a + msl, en[i])
                 if (a - st[i]) + (en[i] - b) >= msl]
